@@ -326,8 +326,12 @@ func c13Job(raw json.RawMessage) (any, error) {
 	for _, host := range []string{"a.com", "b.com", "s.a.com", "A.COM:80"} {
 		for _, path := range []string{"/x", "/v1/x", "/v2/x", "/v1", "/v1/v1/x", "/zz"} {
 			for _, acc := range []string{"", "application/json;version=1", "application/json;version=2", ";;"} {
-				for _, method := range []string{"GET", "POST", "OPTIONS"} {
+				for _, method := range []string{"GET", "POST", "OPTIONS", "GET+raw"} {
 					q := hv.Req{Method: method, Path: path, Host: host}
+					if method == "GET+raw" { // the target arrived percent-encoded: URL.RawPath carries the encoded form
+						method = "GET"
+						q.Method, q.RawPath = "GET", path[:len(path)-1]+fmt.Sprintf("%%%02X", path[len(path)-1]) // "/v1/x" arrives as "/v1/%78"
+					}
 					if acc != "" {
 						q.Header = map[string]string{"Accept": acc}
 					}
@@ -408,6 +412,11 @@ func c13Job(raw json.RawMessage) (any, error) {
 							class = "params-differ"
 						}
 						rep("C13.dispatch", class, probe, got, want)
+					}
+					// a matcher that rejected (alone or inside a combination) leaves the whole request as it was: when no
+					// accepted matcher changed the path, the handler sees the encoded path it was sent as well
+					if !o.Paniced && (win == nil || produced.path == path) && o.RawPath != q.RawPath {
+						rep("C13.dispatch", "reject-left-rawpath-rewritten", probe, fmt.Sprintf("handler sees URL.RawPath=%q", o.RawPath), fmt.Sprintf("URL.RawPath=%q as received", q.RawPath))
 					}
 				}
 			}
